@@ -151,7 +151,8 @@ def sequential_outcomes(kind, tdir, etags, ops):
 
 
 def _scenario(args):
-    kind, mode, ops, bound, maxexec = args
+    kind, mode, ops, bound, maxexec = args[:5]
+    part = args[5] if len(args) > 5 else None  # (k, n): this job explores the k-th slice of the top-level deviations
     label = "%s/%s/%s" % (kind, mode, "|".join(ops))
     vios = {}
     stats = {"executions": 0, "capped": False, "outcomes": set(), "points_max": 0, "preempt_max": 0, "replay_checked": 0}
@@ -242,11 +243,11 @@ def _scenario(args):
         budget = maxexec
         for b in range(bound + 1):
             def on_exec(x, b=b):
-                if x.preemptions == b:
+                if x.preemptions == b and (b > 0 or part is None or part[0] == 0):
                     check(x)
                 else:
                     shutil.rmtree(x.dir, ignore_errors=True)
-            n, capped = sched.explore(run_one, b, max_executions=budget, on_execution=on_exec)
+            n, capped = sched.explore(run_one, b, max_executions=budget, on_execution=on_exec, part=part)
             if capped:
                 stats["capped"] = True
                 break
@@ -258,7 +259,41 @@ def _scenario(args):
     finally:
         shutil.rmtree(tdir, ignore_errors=True)
     stats["outcomes"] = sorted(stats["outcomes"], key=repr)
+    stats["raw"] = raw
     return vios, stats, label, None
+
+
+def merge_parts(results):
+    """Several jobs may explore slices of one scenario: merge them and rebuild the signatures with the overall fewest preemptions."""
+    by = {}
+    for vios, stats, label, err in results:
+        e = by.setdefault(label, {"raw": {}, "stats": {"executions": 0, "capped": False, "outcomes": set(), "points_max": 0, "bound_completed": None}, "errs": []})
+        if err:
+            e["errs"].append(err)
+        st = e["stats"]
+        st["executions"] += stats["executions"]
+        st["capped"] = st["capped"] or stats["capped"]
+        st["outcomes"] |= {repr(o) for o in stats["outcomes"]}
+        st["points_max"] = max(st["points_max"], stats["points_max"])
+        bc = stats.get("bound_completed", -1)
+        st["bound_completed"] = bc if st["bound_completed"] is None else min(st["bound_completed"], bc)
+        for what, r in stats.get("raw", {}).items():
+            m = e["raw"].get(what)
+            if m is None:
+                e["raw"][what] = dict(r)
+            else:
+                m["count"] += r["count"]
+                if r["min_p"] < m["min_p"] or (r["min_p"] == m["min_p"] and len(r["detail"].get("schedule", [])) < len(m["detail"].get("schedule", []))):
+                    m.update(min_p=r["min_p"], summary=r["summary"], detail=r["detail"])
+    out = []
+    for label, e in by.items():
+        kind, mode, opss = label.split("/", 2)
+        vios = {}
+        for what, r in e["raw"].items():
+            sig = "C05|%s|%s|min-preemptions=%d" % (label, what, r["min_p"])
+            vios[sig] = {"summary": r["summary"] + " (fewest preemptions needed: %d)" % r["min_p"], "witness": dict(r["detail"], backend=kind, mode=mode, ops=opss.split("|")), "count": r["count"]}
+        out.append((vios, e["stats"], label, "; ".join(e["errs"]) or None))
+    return out
 
 
 def run(tier, workers=None):
@@ -271,6 +306,11 @@ def run(tier, workers=None):
                 jobs.append((kind, "processes", ops, 1, 400))
         for ops in PAIRS[:6]:
             jobs.append(("tree", "threads", ops, 1, 400))
+        # two preemptions for the scenarios the property names explicitly (same-ETag updates, different resources, same UID)
+        for ops in (PAIRS[0], PAIRS[1], PAIRS[2]):
+            jobs.remove(("tree", "processes", ops, 1, 400))
+            for k in range(8):
+                jobs.append(("tree", "processes", ops, 2, 1200, (k, 8)))
     else:
         for kind in ("tree", "bare"):
             for ops in PAIRS:
@@ -282,7 +322,7 @@ def run(tier, workers=None):
             jobs.append(("mem", "threads", ops, 2, 1500))
     ctx = mp.get_context("fork")
     with ctx.Pool(nw, maxtasksperchild=4) as pool:
-        results = pool.map(_scenario, jobs, chunksize=1)
+        results = merge_parts(pool.map(_scenario, jobs, chunksize=1))
     tot_exec = 0
     outcomes = 0
     capped = []
@@ -304,7 +344,7 @@ def run(tier, workers=None):
         "traces_validated_against_impl": tot_exec,
         "samples": samples,
         "schedules_explored": tot_exec,
-        "scenarios": len(jobs),
+        "scenarios": len(per), "jobs": len(jobs),
         "distinct_outcomes_total": outcomes,
         "scenarios_hitting_execution_cap": capped,
         "per_scenario": per,
